@@ -5,9 +5,10 @@
    operations are given their LangRef meaning (wrap-around, signed/unsigned interpretation, poison).
 
    Results: [LOk v] the emitted code computes v; [LPoison] LLVM poison / undefined (shift count >= width,
-   fptosi/fptoui out of range, srem/urem by zero or overflow); [LReject] the emitted IR is ill-typed and is
-   rejected by LLVM (operands of different widths) - C02's business; [LCrash] the compiler aborts with an
-   error (duplicate `case c.ddpinttyp` in UN_NEGATE); [LNone] not a scalar operator (runtime call).
+   fptosi/fptoui out of range, srem/urem by zero or overflow); [LReject] / [LCrash] the emitted IR is ill-typed /
+   the compiler aborts (no cell of the current tree: the mixed Zahl/Byte cells and Byte negation that were
+   rejected at the pinned commit are repaired by 187c813, b3828c8, 56bfc1a, 229b26f and modelled as repaired);
+   [LNone] not a scalar operator (runtime call).
 
    (llir prints integer constants without a type, so a mixed-width instruction whose wide operand is a LITERAL, e.g.
    `shl i8 %x, 3`, is accepted by LLVM and computes the right value; the check records these runs as
@@ -154,12 +155,13 @@ Definition lower_fcall (f : Z -> Z -> Z) (a b : mval) : lres :=
   | _, _ => LNone
   end.
 
-(* LOGISCH UND/ODER/KONTRA: 1409-1417, operands used as they are *)
+(* LOGISCH UND/ODER/KONTRA: two Bytes stay a Byte, otherwise a Byte operand is zero-extended (56bfc1a) *)
 Definition lower_bit (f : Z -> Z -> Z) (a b : mval) : lres :=
   match a, b with
   | MI64 x, MI64 y => LOk (MI64 (f x y))
   | MI8 x, MI8 y => LOk (MI8 (f x y))
-  | MI64 _, MI8 _ | MI8 _, MI64 _ => LReject
+  | MI64 x, MI8 y => LOk (MI64 (f x (zext8_64 y)))
+  | MI8 x, MI64 y => LOk (MI64 (f (zext8_64 x) y))
   | _, _ => LNone
   end.
 
@@ -173,12 +175,13 @@ Definition lower_mod (a b : mval) : lres :=
   | _, _ => LNone
   end.
 
-(* LINKS / RECHTS VERSCHOBEN: 1426-1432 *)
+(* LINKS / RECHTS VERSCHOBEN: the shift count is cast to the type of the shifted value (229b26f) *)
 Definition lower_shift (left : bool) (a b : mval) : lres :=
   match a, b with
   | MI64 x, MI64 n => of_opt MI64 (if left then shl64 x n else lshr64 x n)
   | MI8 x, MI8 n => of_opt MI8 (if left then shl8 x n else lshr8 x n)
-  | MI64 _, MI8 _ | MI8 _, MI64 _ => LReject
+  | MI64 x, MI8 n => of_opt MI64 (if left then shl64 x (zext8_64 n) else lshr64 x (zext8_64 n))
+  | MI8 x, MI64 n => of_opt MI8 (if left then shl8 x (trunc64_8 n) else lshr8 x (trunc64_8 n))
   | _, _ => LNone
   end.
 
@@ -238,10 +241,10 @@ Definition lower_un (op : unop) (a : mval) : lres :=
   match op, a with
   | UAbs, MF64 x => LOk (MF64 (if fcmp FOlt x f_pos_zero then f_sub f_pos_zero x else x))
   | UAbs, MI64 x => LOk (MI64 (if icmp64 ISlt x 0 then sub64 0 x else x))
-  | UAbs, MI8 x => LOk (MI8 x)          (* value left as an i8 although the typechecker says Zahl (C02) *)
+  | UAbs, MI8 x => LOk (MI64 (zext8_64 x))     (* b3828c8: widened, the result is a Zahl *)
   | UNeg, MF64 x => LOk (MF64 (f_neg x))
   | UNeg, MI64 x => LOk (MI64 (sub64 0 x))
-  | UNeg, MI8 _ => LCrash              (* second `case c.ddpinttyp` is unreachable: c.err *)
+  | UNeg, MI8 x => LOk (MI64 (sub64 0 (zext8_64 x)))   (* 187c813: sub 0, zext *)
   | UNot, MI1 b => LOk (MI1 (xorb b true))
   | ULogicNot, MI64 x => LOk (MI64 (Z.lxor x (m64 - 1)))
   | ULogicNot, MI8 x => LOk (MI8 (Z.lxor x 255))
